@@ -71,6 +71,9 @@ class Music(util.BaseSection):
             data.append(chan3[0] | fstop << 7)
             data.append(chan4[0])
 
+        # PICO-8 leaves out trailing empty patterns. The memory region is
+        # always whole.
+        data.extend(cls.empty(version=version).to_bytes()[len(data):])
         return cls(data=data, version=version)
 
     def to_lines(self):
